@@ -946,8 +946,9 @@ def forced():
     return set(SIG) if v == "all" else set(x for x in v.split(",") if x)
 
 
-def translate_source(src, origin="deap/tools/emo.py"):
-    """source text of emo.py -> (Gallina text, {function: None | Refuse})"""
+def translate_source(src, origin="deap/tools/emo.py", also_refuse=None):
+    """source text of emo.py -> (Gallina text, {function: None | Refuse}); also_refuse: {function: Refuse} decided by the
+    caller (a regenerated definition that does not type-check counts as a refusal)"""
     try:
         tree = ast.parse(src)
         defs = check_module(tree)
@@ -964,6 +965,8 @@ def translate_source(src, origin="deap/tools/emo.py"):
         try:
             if name in force:
                 raise Refuse("FunctionDef", "refusal forced by C04_FORCE_REFUSE")
+            if also_refuse and name in also_refuse:
+                raise also_refuse[name]
             if isinstance(defs[name], Refuse):
                 raise defs[name]
             text = translate_function(defs[name], sg)
@@ -978,13 +981,13 @@ def translate_source(src, origin="deap/tools/emo.py"):
     return out + TRAILER, status
 
 
-def translate_repo(repo):
+def translate_repo(repo, also_refuse=None):
     path = os.path.join(repo, *EMO)
     try:
         src = open(path).read()
     except (OSError, UnicodeDecodeError) as e:
         src = "\x00 unreadable: %s" % e        # -> syntax error -> refusal
-    return translate_source(src, path)
+    return translate_source(src, path, also_refuse)
 
 
 if __name__ == "__main__":
